@@ -46,6 +46,8 @@ pub open spec fn tight_tr(g: G, bound: nat, trans: Seq<BT>, i: int) -> bool
 {
     if i >= trans.len() { false } else { (trans[i].out == 0 && tightg(g, trans[i].addr)) || tight_tr(g, bound, trans, i + 1) }
 }
+/// every emitted node is tight (while building: the root has not been written yet)
+pub open spec fn gtight(g: G) -> bool { forall|a: nat| g.dom().contains(a) ==> #[trigger] tightg(g, a) }
 /// every emitted node but the root is tight
 pub open spec fn gtight_but(g: G, root: nat) -> bool { forall|a: nat| g.dom().contains(a) && a != root ==> #[trigger] tightg(g, a) }
 /// values strictly increase along a listing
